@@ -10,7 +10,10 @@ EXPLANATION = (
     "fold.  Bounded stand-in: brew end to end with a recording estimator (held-out scoring, spectra never split, "
     "training caps), _split and make_train_sets on random inputs.")
 ASSUMPTIONS = [
-    "numpy argsort / concatenate / fancy indexing as in DESIGN.md section 3 (argsort of a permutation is its inverse)",
+    "numpy argsort / concatenate / fancy indexing as in DESIGN.md section 3 (argsort of a permutation is its inverse; "
+    "element p of block i of a concatenation stands at offset(i) + p, inside the concatenation)",
+    "brew#modelidx assumes that the folds of every collection are a permutation of its row numbers (what "
+    "OnDiskPsmDataset._split is to deliver; bounded-only)",
     "OnDiskPsmDataset._split (crc32 hashing, np.unique, searchsorted, np.split) and _predict / parse_in_chunks "
     "(pandas) are covered by the bounded run only",
 ]
@@ -26,6 +29,63 @@ model_index_block = Contract(
     # what OnDiskPsmDataset._split guarantees per collection: the folds partition range(n)
     assumes=[
         "all(is_perm(flatten(%s[f]), len(flatten(%s[f]))) for f in range(len(%s)))" % (_F, _F, _F),
+    ],
+    lemmas=[
+        # block lists of the same shape have the same offsets (proved by induction here, not taken from the library)
+        Lemma("off_same", {"A": "list[list[int]]", "B": "list[list[int]]", "k": "int"},
+              requires=["len(A) == len(B)", "all(len(A[j]) == len(B[j]) for j in range(len(A)))",
+                        "0 <= k <= len(A)"],
+              ensures=["flat_off(A, k) == flat_off(B, k)"],
+              induct="k", auto=True, triggers=[["flat_off(A, k)", "flat_off(B, k)"]]),
+    ],
+    ghosts=[Ghost("FPOS", "list[list[int]], int, int -> int", axioms=[
+        # position of element p of block i in the concatenation of the blocks
+        "forall(lambda xs, i, p: FPOS(xs, i, p) == flat_off(xs, i) + p, "
+        "types={'xs': 'list[list[int]]', 'i': 'int', 'p': 'int'}, trigger=lambda xs, i, p: FPOS(xs, i, p))"])],
+    ghost_at=[
+        # stepping stones (each a proof obligation of its own)
+        {"before": "model_to_psm_idx = [[[i] * len(idx)", "do": [
+            # (0) element p of fold i of file f stands at position FPOS in the concatenation of the folds
+            "assert forall(lambda f, i, p: implies(0 <= f < len(%s) and 0 <= i < len(%s[f]) and "
+            "0 <= p < len(%s[f][i]), flatten(%s[f])[FPOS(%s[f], i, p)] == %s[f][i][p]), "
+            "trigger=lambda f, i, p: %s[f][i][p])" % (_F, _F, _F, _F, _F, _F, _F),
+        ]},
+        {"after": "model_to_psm_idx = [[[i] * len(idx)", "do": [
+            "let blocks0 = model_to_psm_idx",
+            # (1) the blocks of model numbers have the shape of the folds and hold the fold number
+            "assert all(len(blocks0[f]) == len(%s[f]) and all(len(blocks0[f][i]) == len(%s[f][i]) and "
+            "all(blocks0[f][i][p] == i for p in range(len(%s[f][i]))) for i in range(len(%s[f]))) "
+            "for f in range(len(%s)))" % (_F, _F, _F, _F, _F),
+            # (2) hence the same offsets
+            "assert all(all(flat_off(blocks0[f], i) == flat_off(%s[f], i) for i in range(len(%s[f]) + 1)) "
+            "for f in range(len(%s)))" % (_F, _F, _F),
+            # (3) element view of the concatenated blocks
+            "assert forall(lambda f, i, p: implies(0 <= f < len(blocks0) and 0 <= i < len(blocks0[f]) and "
+            "0 <= p < len(blocks0[f][i]), flatten(blocks0[f])[FPOS(blocks0[f], i, p)] == blocks0[f][i][p]), "
+            "trigger=lambda f, i, p: FPOS(blocks0[f], i, p))",
+            # (4) the concatenated blocks hold fold number i at the positions of fold i
+            "assert forall(lambda f, i, p: implies(0 <= f < len(%s) and 0 <= i < len(%s[f]) and "
+            "0 <= p < len(%s[f][i]), FPOS(blocks0[f], i, p) == FPOS(%s[f], i, p) and "
+            "flatten(blocks0[f])[FPOS(%s[f], i, p)] == i), "
+            "trigger=lambda f, i, p: FPOS(%s[f], i, p))" % (_F, _F, _F, _F, _F, _F),
+        ]},
+        # (5) argsort of a permutation is its inverse: the position of row flatten(folds)[q] is q
+        {"after": "original_order_idx = [", "do": [
+            "assert all(len(original_order_idx[f]) == len(flatten(%s[f])) and "
+            "all(original_order_idx[f][flatten(%s[f])[q]] == q for q in range(len(flatten(%s[f])))) "
+            "for f in range(len(%s)))" % (_F, _F, _F, _F),
+            # (6) so the row F[f][i][p] sits at position FPOS of the sorted order
+            "assert forall(lambda f, i, p: implies(0 <= f < len(%s) and 0 <= i < len(%s[f]) and "
+            "0 <= p < len(%s[f][i]), original_order_idx[f][%s[f][i][p]] == FPOS(%s[f], i, p)), "
+            "trigger=lambda f, i, p: %s[f][i][p])" % (_F, _F, _F, _F, _F, _F),
+            "let ooi0 = original_order_idx",
+        ]},
+        # (7) the result gathers the concatenated blocks along that order
+        {"after": "model_to_psm_idx = [np.concatenate(model_idx)[idx]", "do": [
+            "assert forall(lambda f, r: implies(0 <= f < len(model_to_psm_idx) and 0 <= r < len(model_to_psm_idx[f]), "
+            "model_to_psm_idx[f][r] == flatten(blocks0[f])[ooi0[f][r]]), "
+            "trigger=lambda f, r: model_to_psm_idx[f][r])",
+        ]},
     ],
     exit_ghost=["let result_idx = model_to_psm_idx"],
     ensures=[
@@ -123,13 +183,19 @@ fit_model = Contract(
     abstract_ok=["train_set = _create_psms(", "try:", "LOGGER."],
 )
 
-# PARKED: the last clause (routing) is not discharged within any budget tried (nested file/fold/row quantifiers
-# through flatten + argsort + gather); lengths and index safety are.  Not part of the check until it verifies.
-PARKED = [model_index_block]
-CONTRACTS = [make_train_sets, fit_model]
+CONTRACTS = [make_train_sets, fit_model, model_index_block]
 BOUNDED = {"module": "harness.c02"}
 
 MUTANTS = [
+    {"name": "order-of-another-file", "target": "mokapot.brew.brew#modelidx",
+     "find": "for model_idx, idx in zip(model_to_psm_idx, original_order_idx)",
+     "replace": "for model_idx, idx in zip(model_to_psm_idx, original_order_idx[::-1])"},
+    {"name": "model-index-starts-at-one", "target": "mokapot.brew.brew#modelidx",
+     "find": "[[i] * len(idx) for i, idx in enumerate(test_fold_idx)]",
+     "replace": "[[i] * len(idx) for i, idx in enumerate(test_fold_idx, 1)]"},
+    {"name": "permutation-instead-of-its-inverse", "target": "mokapot.brew.brew#modelidx",
+     "find": "np.argsort(utils.flatten(test_fold_idx)).tolist()",
+     "replace": "np.asarray(utils.flatten(test_fold_idx)).tolist()"},
     {"name": "cap-compared-with-total-size", "target": "mokapot.brew.make_train_sets",
      "find": "if current_subset_max_train < len(train_idx[i]):",
      "replace": "if current_subset_max_train < train_idx_size:"},
